@@ -937,3 +937,7 @@ def _seeded():
 
 
 _seeded()
+EX = "atomica/excel.py"
+mutant("C18-M35", "C18", "R18g", "next table placed by the number of target populations (seeded C18h)", EX, "TimeDependentConnections._write_pop_matrix", "next_row = start_row + 1 + len(self.from_pops) + 1", "next_row = start_row + 1 + len(self.to_pops) + 1")
+twin("C18-T8", "C18", "next row computed in two steps", EX, "TimeDependentConnections._write_pop_matrix", "        next_row = start_row + 1 + len(self.from_pops) + 1", "        next_row = start_row + len(self.from_pops) + 2")
+mutant("C16-M50", "C16", "R16s", "transitions sheet rebuilt from the Parameters sheet (seeded C16h)", FW, "ProjectFramework.to_spreadsheet", "for par, pairs in self.transitions.items():", "for par, pairs in [(p, self.transitions[p]) for p in self.pars.index if p in self.transitions]:")
